@@ -5,5 +5,5 @@ import Sqljson.Props.GenLinks
 import Sqljson.Props.C03b
 open Sqljson
 #audit_ns C03 Sqljson.C03
-#audit C03 [Sqljson.GenLinks.keywords_link, Sqljson.GenLinks.keywords_complete, Sqljson.GenLinks.priorities_link, Sqljson.GenLinks.enums_link, Sqljson.GenFacts.enums_unchanged, Sqljson.GenFacts.priorities_unchanged, Sqljson.GenFacts.keywords_unchanged, Sqljson.GenFacts.parser_writes_are_per_call, Sqljson.GenFacts.ast_writes_are_construction, Sqljson.GenFacts.path_writes_are_receivers, Sqljson.GenFacts.no_package_var_writes, Sqljson.GenFacts.no_package_var_uses, Sqljson.GenFacts.no_unsafe_or_sync, Sqljson.GenFacts.no_goroutines]
+#audit C03 [Sqljson.GenLinks.keywords_link, Sqljson.GenLinks.keywords_complete, Sqljson.GenLinks.priorities_link, Sqljson.GenLinks.enums_link, Sqljson.GenFacts.enums_unchanged, Sqljson.GenFacts.priorities_unchanged, Sqljson.GenFacts.keywords_unchanged, Sqljson.GenFacts.parser_writes_are_per_call, Sqljson.GenFacts.ast_writes_are_construction, Sqljson.GenFacts.path_writes_are_receivers, Sqljson.GenFacts.no_package_var_writes, Sqljson.GenFacts.no_package_var_uses, Sqljson.GenFacts.in_place_calls_are_local, Sqljson.GenFacts.no_unsafe_or_sync, Sqljson.GenFacts.no_goroutines]
 #audit_ns C03 Sqljson.C03b
